@@ -83,6 +83,7 @@ fn finish(name: String, acc: EAcc, inputs: u64, samples: Vec<Value>, t0: Instant
         transitions: acc.evals,
         nontrivial: acc.nontrivial,
         validated: acc.evals,
+        probe_execs: 0,
         depth_completed: 1,
         depth_target: 1,
         exhaustive: true,
